@@ -8,7 +8,7 @@ Line-protocol driver for the injection-gate models (C10).  Imports the models an
 (`Operon.Gen.GatesConsts`, core Lean only) — the window length, the inflammation cut-offs and the default
 validator list come from the source on every run.
 
-Environment: `lower` is `lowerStd`; the results of the real `re` / `json` calls arrive on the line after `@`
+Environment: `lower` is `foldStd`; the results of the real `re` / `json` calls arrive on the line after `@`
 (recorded by the harness from the implementation's own calls) and are looked up by pattern text.
 -/
 open Operon Operon.Proto Operon.Gates
@@ -124,7 +124,7 @@ def parseTable (rxs : List String) : List (String × Bool) :=
     | _ => none
 
 def mkEnv (table : List (String × Bool)) (compiles : Bool) (js : JsonOut) : Env :=
-  { lower := lowerStd
+  { lower := foldStd
     rx := fun p _ => (fun k => ((table.find? (fun e => e.1 = k)).map (·.2)).getD false) (rxKey p)
     compiles := fun _ => compiles
     json := fun _ => js }
